@@ -157,7 +157,7 @@ def install():
       return orig_flush(self)
     finally:
       k = len(self.stored) - n0
-      rec.events.append({'k': 'flushall', 'n': k})
+      rec.events.append({'k': 'flushall', 'n': k, 'acts': [enc_action(a) for a in self.stored[n0:]]})
       rec.n_stored += k
   action_obj.ActionGroup.flush_calc_changes = flush_calc_changes
 
@@ -172,7 +172,8 @@ def install():
       return orig_flushc(self, table_id, col_id)
     finally:
       k = len(self.stored) - n0
-      rec.events.append({'k': 'flushcol', 't': table_id, 'c': col_id, 'n': k})
+      rec.events.append({'k': 'flushcol', 't': table_id, 'c': col_id, 'n': k,
+                         'acts': [enc_action(a) for a in self.stored[n0:]]})
       rec.n_stored += k
   action_obj.ActionGroup.flush_calc_changes_for_column = flush_calc_changes_for_column
 
@@ -393,3 +394,19 @@ def tds_doc(tds):
                'cols': {c: [enc(vals[i]) for i in order] for c, vals in td.columns.items()}}
     types[t] = {c: tds.get_schema()[t][c]['type'] for c in td.columns}
   return snap, types
+
+
+def coq_levent(ev, I, q=q):
+  """The event's effect on (stored, direct) as a Coq `levent`, or None when it has none."""
+  k = ev['k']
+  if k in ('doc', 'docfail'):
+    return '(LAppend %s %s)' % (coq_action(ev['a'], I, q), zl(ev['lvl']))
+  if k == 'create':
+    return '(LCreate %s)' % coq_action(ev['a'], I, q)
+  if k in ('flushcol', 'flushall'):
+    return '(LFlush %s)' % core.coq_list([coq_action(a, I, q) for a in ev['acts']])
+  if k == 'rollback':
+    return '(LTrim %s)' % zl(ev['n'])
+  if k in ('calc', 'prune', 'unlogged'):
+    return None
+  raise core.TieBroken('event kind %r has no model counterpart' % (k,))
